@@ -35,6 +35,9 @@ class C17(XsProp):
     def planted(self, rng):
         """returns (text, culprit_start_char_index, culprit_text, kind)"""
         pre = ''.join(' ' + rng.choice(FILL) for _ in range(rng.randint(0, 6))) + ' '
+        if rng.random() < 0.3:
+            # the failing token (or the construct around it) starts in column 0 of a later line
+            pre = pre.rstrip(' ') + rng.choice(['\n', '\r\n', '\r', '\n\n'])
         k = rng.random()
         if k < 0.12:
             cul, body = 'zzqq', '{C}'
